@@ -104,8 +104,9 @@ func Process(t parser.TemplateFile) (parser.TemplateFile, error) {
 	if err := eg.Wait(); err != nil {
 		return t, err
 	}
-	// Delete unused imports.
-	for _, imp := range firstGoNodeInTemplate.Imports {
+	// Delete unused imports. DeleteNamedImport removes the import from the slice that is being
+	// ranged over, so iterate over a copy, otherwise the import that follows a deleted one is skipped.
+	for _, imp := range slices.Clone(firstGoNodeInTemplate.Imports) {
 		if !containsImport(updatedImports, imp) {
 			name, path, err := getImportDetails(imp)
 			if err != nil {
